@@ -1,11 +1,11 @@
 package props
 
 import (
-	"sort"
 	"fmt"
 	"go/constant"
 	"go/token"
 	"go/types"
+	"sort"
 	"strings"
 	"sync"
 
